@@ -29,7 +29,10 @@ AUDIT = "PorepyVerif/C37/Audit.lean"
 DRIVER = "PorepyVerif/C37/Driver.lean"
 N = {"quick": 80, "thorough": 1000}
 TOL = 1e-9
-RULE = ("a case = 1-8 diagonal blocks of sizes 1-6 (1x1 blocks frequent; thorough: up to 14 blocks); block values = row-wise strictly "
+RULE = ("a case = 1-8 diagonal blocks of sizes 1-6 (1x1 blocks frequent; thorough: up to 14 blocks); valid cases are STRATIFIED: the 16 "
+        "combinations of (csr|csc storage of the block-diagonal matrix) x (uniform|non-uniform block sizes) x (all blocks full|some zero "
+        "entries) x (all blocks symmetric|some block non-symmetric) are visited cyclically, every second round in canonical storage, so "
+        "each combination occurs at least twice (once canonically) in every quick run; block values = row-wise strictly "
         "diagonally dominant small integers or dyadics (so binary64 holds them exactly and the exact inverse has moderate rationals), "
         "off-diagonal entries zero with probability 0/0.3/0.6/0.9 (blocks may split into finer components), rows of a block optionally "
         "shuffled (zero diagonal entries, pivoting needed); the block-diagonal matrix is stored as csr or csc, optionally with unsorted "
@@ -184,6 +187,57 @@ def _block(rng, s, kind):
     return B
 
 
+def _block_s(rng, s, full, sym):
+    """block for a stratum: `full` = no zero entry, otherwise off-diagonal zeros with density 0.3/0.6/0.9; `sym` = symmetric.
+    Row-wise strictly diagonally dominant in both cases."""
+    dens = 0.0 if full else rng.choice([0.3, 0.6, 0.9])
+    den = rng.choice([1, 1, 2, 4])
+    vals = [v for v in range(-3, 4) if v != 0]
+    B = [[Fraction(0)] * s for _ in range(s)]
+    for i in range(s):
+        for j in range(s):
+            if i == j or (sym and j < i):
+                continue
+            if rng.random() >= dens:
+                B[i][j] = Fraction(rng.choice(vals), den)
+            if sym:
+                B[j][i] = B[i][j]
+    for i in range(s):
+        tot = sum(abs(B[i][j]) for j in range(s) if j != i)
+        B[i][i] = (tot + Fraction(rng.randint(1, 4), den)) * rng.choice([1, 1, -1])
+    if not sym and rng.random() < 0.35:  # shuffled rows: zero diagonal entries (only if sparse), still well conditioned
+        rng.shuffle(B)
+    return B
+
+
+def _stratum_of(blocks, fmt):
+    """(storage format of the block-diagonal matrix, uniform block sizes?, all blocks full?, all blocks symmetric?)"""
+    sizes = [len(b) for b in blocks]
+    return [fmt, len(set(sizes)) <= 1,
+            all(x != 0 for b in blocks for r in b for x in r),
+            all(b[i][j] == b[j][i] for b in blocks for i in range(len(b)) for j in range(len(b)))]
+
+
+STRATA = [(fmt, uni, full, sym) for fmt in ("csr", "csc") for uni in (True, False) for full in (True, False) for sym in (True, False)]
+_strat = {"k": 0}  # number of stratified cases generated so far in this process
+
+
+def _stratified_blocks(rng, tier, uni, full, sym):
+    """sizes and blocks with exactly the requested properties (rejection sampling on top of a guided generator)"""
+    maxb = 8 if tier == "quick" else 14
+    for _ in range(200):
+        if uni:
+            nb = rng.choice([1, 2, 2, 3, 3, 4, 6, maxb])
+            sizes = [rng.choice([2, 2, 3, 3, 4, 5, 6] if not (full and sym) else [1, 2, 2, 3, 3, 4, 5, 6])] * nb
+        else:
+            nb = rng.choice([2, 2, 3, 3, 4, 5, 6, 7, maxb])
+            sizes = [rng.choice([1, 1, 2, 2, 3, 3, 4, 5, 6]) for _ in range(nb)]
+        blocks = [_block_s(rng, s, full, sym) for s in sizes]
+        if _stratum_of(blocks, "x")[1:] == [uni, full, sym]:
+            return sizes, blocks
+    raise RuntimeError("stratified generator failed")
+
+
 def _make_singular(rng, B):
     s = len(B)
     how = rng.choice(["zero_row", "zero_col", "dup_row"] if s > 1 else ["zero_row"])
@@ -251,9 +305,20 @@ def gen_case(rng, tier):
         if sub == "empty":
             return _assemble([], _with_zero_sizes(rng, []), [], [], rng.choice(["csr", "csc"]), rng.choice(["csr", "csc"]), "empty")
     maxb = 8 if tier == "quick" else 14
-    nb = rng.choice([1, 2, 2, 3, 3, 4, 5, 6, 7, maxb])
-    sizes = [rng.choice([1, 1, 2, 2, 3, 3, 4, 5, 6]) for _ in range(nb)]
-    blocks = [_block(rng, s, kind) for s in sizes]
+    strat = None
+    if kind == "valid":
+        # explicit stratification: storage format x uniform/non-uniform sizes x full/sparse blocks x symmetric/non-symmetric blocks;
+        # the 16 combinations are visited cyclically, every second round with canonical storage (sorted, no stored zeros,
+        # no zero sizes) and the format of the permuted matrix alternating every two rounds
+        k = _strat["k"]
+        _strat["k"] += 1
+        strat = STRATA[k % 16]
+        sizes, blocks = _stratified_blocks(rng, tier, *strat[1:])
+        nb = len(sizes)
+    else:
+        nb = rng.choice([1, 2, 2, 3, 3, 4, 5, 6, 7, maxb])
+        sizes = [rng.choice([1, 1, 2, 2, 3, 3, 4, 5, 6]) for _ in range(nb)]
+        blocks = [_block(rng, s, kind) for s in sizes]
     sing = None
     if kind == "malformed":
         kind = "singular"
@@ -269,12 +334,13 @@ def gen_case(rng, tier):
         pc = list(pr)  # symmetric permutation
     var = {}
     rcomp, ccomp = _components(_blockdiag(blocks))
-    if rng.random() < 0.3:
+    canonical = strat is not None and (k // 16) % 2 == 0
+    if not canonical and rng.random() < 0.3:
         var["shuffle_bd"] = rng.randrange(10**6)
-    if rng.random() < 0.3:
+    if not canonical and rng.random() < 0.3:
         var["shuffle_m"] = rng.randrange(10**6)
     # explicit zeros inside the diagonal blocks (harmless for the block structure)
-    if rng.random() < 0.3:
+    if not canonical and rng.random() < 0.3:
         zs = []
         o = 0
         for b in blocks:
@@ -304,8 +370,12 @@ def gen_case(rng, tier):
             kind = "valid"
         else:
             var["zeros_m"] = var.get("zeros_m", []) + [[pr[i], pc[j]] for i, j in rng.sample(off, min(len(off), rng.randint(1, 4)))]
-    case = _assemble(blocks, _with_zero_sizes(rng, sizes) if rng.random() < 0.25 else list(sizes), pr, pc,
-                     rng.choice(["csr", "csr", "csc"]), rng.choice(["csr", "csr", "csc"]), kind, variations=var, sing=sing)
+    if strat is not None:
+        case = _assemble(blocks, _with_zero_sizes(rng, sizes) if (not canonical and rng.random() < 0.25) else list(sizes), pr, pc,
+                         strat[0], ("csr", "csc")[(k // 32) % 2], kind, variations=var)
+    else:
+        case = _assemble(blocks, _with_zero_sizes(rng, sizes) if rng.random() < 0.25 else list(sizes), pr, pc,
+                         rng.choice(["csr", "csr", "csc"]), rng.choice(["csr", "csr", "csc"]), kind, variations=var, sing=sing)
     # the permuted inverter is also run with the generator's own (possibly coarser) permutation when that differs from the
     # computed one, i.e. when a block splits into several components, and on a third of the other cases
     if not (len(set(rcomp)) > len(sizes) or kind != "valid" or rng.random() < 0.34):
@@ -801,9 +871,19 @@ def stats(cases, impl_outs):
             for k in ("numba", "perminv_given"):
                 v = o.get(k) or {}
                 nbs[f"{k}:{v.get('err', 'returns-numbers-silently')}"] += 1
+    strata, strata_canon = Counter(), Counter()
+    for c in cases:
+        if c.get("kind") in ("valid", "dup_entries", "stored_zeros_offblock") and c.get("sizes"):
+            st = _stratum_of([[[Fraction(x) for x in r] for r in b] for b in c["blocks"]], c["bd"]["fmt"])
+            key = "/".join([st[0], "uniform" if st[1] else "nonuniform", "full" if st[2] else "sparse", "sym" if st[3] else "nonsym"])
+            strata[key] += 1
+            v = c["variations"]
+            if v["shuffle_bd"] is None and not v["zeros_bd"] and not v["dups_bd"] and c["sizes_arg"] == c["sizes"]:
+                strata_canon[key] += 1
     var = Counter(k for c in cases for k, v in c.get("variations", {}).items() if v not in (None, []))
     return {"kinds": dict(kinds), "num_blocks": {str(k): v for k, v in sorted(nblocks.items())}, "block_sizes": {str(k): v for k, v in sorted(bsz.items())},
-            "formats_bd/m": dict(fm), "impl_errors": dict(errs), "numba_on_singular": dict(nbs), "storage_variations": dict(var),
+            "formats_bd/m": dict(fm), "strata(fmt/sizes/fill/symmetry)": dict(sorted(strata.items())),
+            "strata_with_canonical_storage": dict(sorted(strata_canon.items())), "impl_errors": dict(errs), "numba_on_singular": dict(nbs), "storage_variations": dict(var),
             "zero_entries_in_size_vector": sum(1 for c in cases if 0 in c.get("sizes_arg", [])),
             "cases_where_components_are_finer_than_generated_blocks": split,
             "matrix_dim_max": max((c["m"]["shape"][0] for c in cases), default=0)}
